@@ -239,6 +239,35 @@ def run(ctx):
                             same_len.add(x.targets[0].id)
             okf = len(d) == 1 and va is not None and any(norm(d[0].value) in (
                 "not %s" % a_, "len(%s) == 0" % a_, "0 == len(%s)" % a_, "not len(%s)" % a_, "%s == ()" % a_, "len(%s) < 1" % a_) for a_ in same_len)
+    if hresp is None:
+        # the reply handler as a method of the class: what its closure form captured arrives through the registration's extra
+        # arguments - the flag is the parameter bound to the expression given in load_metadata_for_topics
+        for g_ in registrations(lm, prog):
+            h_ = prog.resolve_callable(lm, g_["cb"]) if g_["cb"] is not None else None
+            if h_ is None or h_.cls is not lm.cls or not calls_in(h_, "_merge_topic_metadata"):
+                continue
+            mc = calls_in(h_, "_merge_topic_metadata")[0]
+            flag = kwarg(mc, "fetched_all_topics", 2)
+            ps_ = [p_ for p_ in h_.params if p_ not in ("self", "cls")][1:]  # after the result parameter
+            rebinds = {n.id for x in ast.walk(h_.node) for n in ([x] if isinstance(x, ast.Name) and isinstance(x.ctx, ast.Store) else [])}
+            if isinstance(flag, ast.Name) and flag.id in ps_ and flag.id not in rebinds and ps_.index(flag.id) < len(g_["cb_args"]):
+                given = g_["cb_args"][ps_.index(flag.id)]
+                va = lm.node.args.vararg.arg if lm.node.args.vararg else None
+                same_len = {va}
+                for x in walk_body_shallow(lm.body):
+                    if isinstance(x, ast.Assign) and len(x.targets) == 1 and isinstance(x.targets[0], ast.Name):
+                        v_ = x.value
+                        if isinstance(v_, ast.Call) and call_name(v_) in ("tuple", "list") and len(v_.args) == 1:
+                            v_ = v_.args[0]
+                        if isinstance(v_, (ast.GeneratorExp, ast.ListComp)) and len(v_.generators) == 1 and not v_.generators[0].ifs and norm(v_.generators[0].iter) in same_len:
+                            if sum(1 for y in walk_body_shallow(lm.body) if isinstance(y, ast.Assign) and any(isinstance(t_, ast.Name) and t_.id == x.targets[0].id for t_ in y.targets)) == 1:
+                                same_len.add(x.targets[0].id)
+                gv = given
+                if isinstance(gv, ast.Name):
+                    dd = [x for x in walk_body_shallow(lm.body) if isinstance(x, ast.Assign) and unparse(x.targets[0]) == gv.id]
+                    gv = dd[0].value if len(dd) == 1 else gv
+                okf = va is not None and any(norm(gv) in ("not %s" % a_, "len(%s) == 0" % a_, "0 == len(%s)" % a_, "not len(%s)" % a_, "%s == ()" % a_, "len(%s) < 1" % a_)
+                                             for a_ in same_len)
     r.check(okf, "%s#full-refresh-flag" % lm.qname, "the `all topics were fetched` flag is not computed from the caller's topic arguments "
             "(it reads a name re-bound inside the response handler)", where(lm, lm.node),
             "full refresh of a cluster with at least one topic: brokers missing from the reply are never closed")
